@@ -51,6 +51,7 @@ type GOp struct {
 	Reuse  bool `json:"reuse,omitempty"`  // reuse the thread's single key buffer (bench/failover.go pattern)
 	TTL0   bool `json:"ttl0,omitempty"`   // caller context carries a TTL cell holding 0
 	CBef   bool `json:"cbef,omitempty"`   // cancel the caller's context before Get
+	DL     bool `json:"dl,omitempty"`     // the caller's context carries a deadline
 }
 
 // FCfg is one Failover scenario.
@@ -718,6 +719,12 @@ func (h *fh) runGet(op GOp, buf []byte) {
 		var c context.CancelFunc
 		ctx, c = context.WithCancel(ctx)
 		c()
+	}
+
+	if op.DL {
+		var c context.CancelFunc
+		ctx, c = context.WithDeadline(ctx, time.Now().Add(24*time.Hour)) // real clock: package context knows no other
+		defer c()
 	}
 
 	if op.Skip {
